@@ -27,6 +27,7 @@ THEOREMS = {
            [("FlooVerif.checkNoOverlap_iff", "FlooVerif.Lemmas.RouteMapLemmas")],
     "C02": _t("HwTieShape", "FlooVerif.HwTie.rtl_shape") + _t("HwTieWhole", "FlooVerif.HwTie.selectAll_pinned", "FlooVerif.HwTie.routerAll_pinned") + _t("C02", "FlooVerif.C02.arrives_of_potential", "FlooVerif.C02.trace_nodup", "FlooVerif.C02.walk_fuel_mono") +
            _t("C02U", "FlooVerif.C02U.tables_deliver", "FlooVerif.C02U.next_is_closer", "FlooVerif.C02U.remaining_decreases") +
+           _t("C02Table", "FlooVerif.C02T.model_table_decodes", "FlooVerif.C02T.tableRule_spec", "FlooVerif.C02T.decode_of_mem") +
            _t("C02Model", "FlooVerif.C02M.model_tables_deliver", "FlooVerif.C02M.model_route_exists", "FlooVerif.C02M.createNetwork_closed", "FlooVerif.C02M.model_oracle_contract"),
     "C03": _t("C03Model", "FlooVerif.C03M.model_route_unpacks", "FlooVerif.C03M.routeLit_value", "FlooVerif.C03M.routePorts_spec", "FlooVerif.C03M.hopPort_spec", "FlooVerif.C03M.routePorts_fit", "FlooVerif.C03M.genRoutes_bits_cover") + _t("HwTieWhole", "FlooVerif.HwTie.selectAll_pinned", "FlooVerif.HwTie.routerAll_pinned", "FlooVerif.HwTie.compAll_pinned") + _t("HwTiePorts", "FlooVerif.HwTie.chimneyIds_pinned") + _t("HwTieSrc", "FlooVerif.HwTie.src_agrees", "FlooVerif.HwTie.src_is_srcPop") + _t("HwTieShape", "FlooVerif.HwTie.rtl_shape") + _t("C03", "FlooVerif.C03.pack_unpack", "FlooVerif.C03.pack_lt", "FlooVerif.C03.port_fits"),
     "C04": _t("HwTieWhole", "FlooVerif.HwTie.selectAll_pinned", "FlooVerif.HwTie.routerAll_pinned") + _t("HwTie", "FlooVerif.HwTie.xy_agrees") + _t("HwTieMask", "FlooVerif.HwTie.mask_agrees") + _t("HwTieShape", "FlooVerif.HwTie.rtl_shape") + _t("C04", "FlooVerif.C04.lockstep", "FlooVerif.C04.step_closer", "FlooVerif.C04.no_y_to_x_turn",
@@ -43,6 +44,7 @@ THEOREMS = {
               "FlooVerif.C06U.getD_flatMap_replicate") +
            _t("C06Grid", "FlooVerif.C06G.spec_autolinks_in_graph") +
            _t("C06Conn", "FlooVerif.C06C.connectPairs_edges", "FlooVerif.C06C.connectPairs_links", "FlooVerif.C06C.connectPairs_only") + _t("C06Tree", "FlooVerif.C06T.tree_ext") +
+           _t("C18Tree", "FlooVerif.C18T.level_selection_agrees", "FlooVerif.C18T.lvlNodes_single", "FlooVerif.C18T.prodNames_eq_cartesian") +
            _t("C04U", "FlooVerif.C04U.array_is_grid"),
     "C07": _t("C07", "FlooVerif.C07U.id_eq_uid", "FlooVerif.C07U.idOf_eq", "FlooVerif.C07U.uids_dense", "FlooVerif.C07U.id_fits") +
            _t("C07XY", "FlooVerif.C07U.xy_ids_fit", "FlooVerif.C07U.coord_fits", "FlooVerif.C07U.listMin_le", "FlooVerif.C07U.listMax_ge"),
@@ -76,7 +78,8 @@ THEOREMS = {
     "C17": _t("C17", "FlooVerif.C17.mkRange_wf", "FlooVerif.C17.mkRange_based", "FlooVerif.C17.setIdx_spec",
               "FlooVerif.C17.setIdx_unbased", "FlooVerif.C17.rejects_contradictory", "FlooVerif.C17.rejects_empty",
               "FlooVerif.C17.rejects_negative", "FlooVerif.C17.rejects_underspecified"),
-    "C18": _t("C18Names", "FlooVerif.C18N.name1_inj", "FlooVerif.C18N.name2_inj", "FlooVerif.C18N.split_unique") +
+    "C18": _t("C18Tree", "FlooVerif.C18T.lvl_select_in", "FlooVerif.C18T.lvl_select_tree", "FlooVerif.C18T.level_of_tree", "FlooVerif.C18T.level_beyond", "FlooVerif.C18T.tree_nodes", "FlooVerif.C18T.tree_inTree") +
+           _t("C18", "FlooVerif.C18.not_inTree_of_next") + _t("C18Names", "FlooVerif.C18N.name1_inj", "FlooVerif.C18N.name2_inj", "FlooVerif.C18N.split_unique") +
            _t("C18", "FlooVerif.C18.range_product", "FlooVerif.C18.range_error", "FlooVerif.C18.range_empty",
               "FlooVerif.C18.pyRange_eq_seqIncl", "FlooVerif.C18.idx_spec", "FlooVerif.C18.lvl_spec"),
     "C19": _t("HwTieTb", "FlooVerif.HwTie.tbJobs_pinned") + _t("C19", "FlooVerif.C19.jobs_in_range", "FlooVerif.C19.base_addresses", "FlooVerif.C19.finite_ok",
